@@ -51,6 +51,11 @@ partial def buildTree : List Ev → List Node × List Ev
   | Ev.characters t :: rest => let (sibs, r) := buildTree rest; (Node.text t :: sibs, r)
   | Ev.cdata t :: rest => let (sibs, r) := buildTree rest; (Node.text t :: sibs, r)
   | Ev.raw t :: rest => let (sibs, r) := buildTree rest; (Node.rawText t :: sibs, r)
+  | Ev.pi a b :: Ev.characters t :: rest =>
+    if isRawMarker a b then let (sibs, r) := buildTree rest; (Node.rtfRawText t :: sibs, r)
+    else
+      let (sibs, r) := buildTree (Ev.characters t :: rest)
+      (Node.pi a b :: sibs, r)
   | Ev.comment t :: rest => let (sibs, r) := buildTree rest; (Node.comment t :: sibs, r)
   | Ev.pi t d :: rest => let (sibs, r) := buildTree rest; (Node.pi t d :: sibs, r)
 
